@@ -120,6 +120,20 @@ pub fn build_world(spec: &Value, goal_kind: &str) -> World {
             TransportFeatureBuilder::new("min-distance").set_transport_cost(transport.clone()).build_minimize_distance().unwrap(),
             capacity,
         ]
+    } else if goal_kind == "C" {
+        // no layer with a negative estimate in front: the route-level estimate (fixed cost of a fresh tour) leads the cost vector
+        vec![
+            TransportFeatureBuilder::new("min-cost").set_transport_cost(transport.clone()).build_minimize_cost().unwrap(),
+            unassigned,
+            capacity,
+        ]
+    } else if goal_kind == "D" {
+        vec![
+            create_minimize_tours_feature("min-tours").unwrap(),
+            TransportFeatureBuilder::new("min-cost").set_transport_cost(transport.clone()).build_minimize_cost().unwrap(),
+            unassigned,
+            capacity,
+        ]
     } else {
         vec![
             create_maximize_total_job_value_feature(
